@@ -278,6 +278,7 @@ def decide_verus(prop, tier, seed, notes):
             continue
         if "VACUITY" in var:
             want = set(nows(i["path"]) for i in r["items"] if i["kind"] == "fn" and "original" in i and has_body(i))
+            # imported contracts are probed in the unit that verifies their body
             got = set()
             for e in r["errors"]:
                 m = re.search(r"VACUITY-PROBE (\S+)", e["clause"])
@@ -416,12 +417,16 @@ def run_property(prop, tier, seed):
     discharged = [o for o in proof_obl if o["status"] == "discharged"]
     known_failed = [o for o in proof_obl if o["status"] != "discharged"]
     items = []
+    imported = set()
     rewrites = {}
     trusted = set(P.get("trusted_extra", []))
     for (u, var), r in results.items():
         if var:
             continue
         for it in r.get("items", []):
+            if it.get("kind") == "imported-contract":
+                imported.add(f"{u} uses the contract of {it['path']} verified in unit {it['from_unit']}")
+                continue
             items.append({"unit": u, "file": it["file"], "path": it["path"], "lines": it["lines"],
                           "sha256": hashlib.sha256(it["original"].encode()).hexdigest()[:16],
                           "contract_clauses": it.get("contract_clauses", 0), "manual_rewrites": it.get("manual", [])})
@@ -445,6 +450,7 @@ def run_property(prop, tier, seed):
             "checker_cmd": "; ".join(sorted(set(r["cmd"] for r in results.values() if r.get("cmd"))))[:4000] + ("; " + k_info.get("cmd", "") if k_info.get("cmd") else ""),
             "trusted_base": sorted(trusted),
             "functions_under_contract": items,
+            "imported_contracts": len(imported),
             "rewrites": rewrites,
             "backends": sorted(set(o["backend"] for o in obligations)),
             "solver_ms": sum(r.get("solver_ms", 0) for r in results.values()) + k_info.get("solver_ms", 0),
